@@ -5,9 +5,52 @@
 // with a version error when recreation is not allowed -- it never fails while "initialising" a connection it already closed.
 #include "lib/Core/SQLiteBuildDB.cpp"
 #include "driver_common.h"
+#include "llbuild/Core/BuildEngine.h"
+#include "llbuild/Basic/ExecutionQueue.h"
 #include <sys/stat.h>
-static const char* ALPHABET() { static const char a[] = "\0\x01\x02\x03"; return a; }
+// kind 4..7: two rules whose keys are [2] and [3] (decimal spellings such as "0123" / "123") are built in three sessions over one
+// database file; a rule must never be handed the stored result of the other one.
+namespace {
+using namespace llbuild; using namespace llbuild::core;
+int g_runs;
+ValueType iv(int v){ return ValueType{(uint8_t)v,(uint8_t)(v>>8),0,0}; }
+int vi(const ValueType& v){ return v.size()<2?-1:(v[0]|(v[1]<<8)); }
+struct Del : BuildEngineDelegate, basic::ExecutionQueueDelegate {
+  std::unique_ptr<Rule> lookupRule(const KeyType&) override { abort(); }
+  void cycleDetected(const std::vector<Rule*>&) override {}
+  void error(const Twine&) override {}
+  void processStarted(basic::ProcessContext*, basic::ProcessHandle, llbuild_pid_t) override {}
+  void processHadError(basic::ProcessContext*, basic::ProcessHandle, const Twine&) override {}
+  void processHadOutput(basic::ProcessContext*, basic::ProcessHandle, StringRef) override {}
+  void processFinished(basic::ProcessContext*, basic::ProcessHandle, const basic::ProcessResult&) override {}
+  void queueJobStarted(basic::JobDescriptor*) override {} void queueJobFinished(basic::JobDescriptor*) override {}
+  std::unique_ptr<basic::ExecutionQueue> createExecutionQueue() override { return createSerialQueue(*this, nullptr); }
+};
+struct CT : Task { int v; CT(int v):v(v){} void start(TaskInterface) override {}
+  void provideValue(TaskInterface, uintptr_t, const KeyType&, const ValueType&) override {}
+  void inputsAvailable(TaskInterface ti) override { g_runs++; ti.complete(iv(v)); } };
+struct CR : Rule { int v; CR(const KeyType& k, int v):Rule(k),v(v){}
+  Task* createTask(BuildEngine&) override { return new CT(v); }
+  bool isResultValid(BuildEngine&, const ValueType&) override { return true; } };
+int session(const std::string& path, const std::string& k1, const std::string& k2, const std::string& key) {
+  Del del; BuildEngine engine(del); std::string err;
+  engine.attachDB(createSQLiteBuildDB(path, 1, true, &err), &err);
+  engine.addRule(std::unique_ptr<Rule>(new CR(k1, 7)));
+  if (k2 != k1) engine.addRule(std::unique_ptr<Rule>(new CR(k2, 9)));
+  return vi(engine.build(key)); }
+const char* SPELL[] = {"123", "0123", "1e3", "1000", "123.0", " 123", "a", "+5"};
+}
+static const char* ALPHABET() { static const char a[] = "\0\x01\x02\x03\x04\x05\x06\x07"; return a; }
 static int run_case(const std::string& fn, const std::vector<unsigned char>& in, std::string& why) {
+  if (in.size() > 0 && (in[0] & 4)) {
+    char t2[] = "/tmp/verif_dbkeys_XXXXXX"; std::string d2 = mkdtemp(t2); std::string path = d2 + "/build.db";
+    std::string k1 = SPELL[in.size() > 2 ? in[2] & 7 : 0], k2 = SPELL[in.size() > 3 ? in[3] & 7 : 1];
+    int a = session(path, k1, k2, k1), b = session(path, k1, k2, k2), c = session(path, k1, k2, k1);
+    std::string cmd = "rm -rf " + d2; (void)system(cmd.c_str());
+    int eb = k1 == k2 ? 7 : 9;
+    if (a != 7 || b != eb || c != 7) { char buf[200]; snprintf(buf, sizeof buf, "keys '%s' and '%s' over one database: sessions returned %d, %d, %d (expected 7, %d, 7)", k1.c_str(), k2.c_str(), a, b, c, eb); why = buf; return 1; }
+    return 0;
+  }
   int kind = in.size() > 0 ? in[0] & 3 : 0; bool recreate = in.size() > 1 ? (in[1] & 1) : true;
   char tmpl[] = "/tmp/verif_dbopen_XXXXXX"; std::string dir = mkdtemp(tmpl);
   std::string path = dir + "/build.db";
